@@ -20,8 +20,11 @@ class Has:
     """Joint guard spec: the branch condition's slice contains all the given leaf patterns.
     A pattern may be a list of alternatives."""
 
-    def __init__(self, *pats, name=None, within=None):
+    def __init__(self, *pats, name=None, within=None, awaits=False):
         self.pats = pats
+        # awaits=True: the guard asked for IS the completion of an `.await` (the Ready edge of the
+        # poll-state switch); otherwise poll-state switches are never guards
+        self.awaits = awaits
         # patterns that must be matched by the conditions of the branch edges that dominate the
         # guard (the other conjuncts of a compound `a && b` condition / the enclosing match arm)
         self.within = within
@@ -154,6 +157,21 @@ class Cmp:
 
     def matches_expr(self, e, ctx, env=None):
         return bool(self.find(e, ctx, env))
+
+
+def is_poll_switch(e):
+    """switchInt(discriminant(<F as Future>::poll(..))) - the state test of an await loop."""
+    if e[0] != "discr":
+        return False
+    x = e[1]
+    for _ in range(4):
+        if x[0] in ("proj", "part"):
+            x = x[2]
+        elif x[0] == "cast":
+            x = x[1]
+        else:
+            break
+    return x[0] == "call" and std_tail(x[2]) in ("Future::poll", "Stream::poll_next", "FusedFuture::poll") and True
 
 
 def bool_nodes(e, neg=False, depth=0, seen=None):
@@ -483,6 +501,18 @@ class Guards:
     def spec_match(self, b, spec):
         """None if switch b's condition does not match spec; else info dict (ops for Cmp)."""
         e = self.body.switch_discr_expr(b)
+        if is_poll_switch(e) and not getattr(spec, "awaits", False):
+            # the Ready/Pending test of an `.await`: its Pending edge only re-polls, it decides nothing
+            return None
+        if isinstance(spec, AnyOf):
+            # each alternative keeps its own polarity / operand semantics
+            for alt in spec.specs:
+                info = self.spec_match(b, alt)
+                if info is not None:
+                    info = dict(info)
+                    info.setdefault("alt", alt)
+                    return info
+            return None
         if isinstance(spec, Cmp):
             ops = spec.find(e, self.ctx, self.env)
             if ops:
@@ -534,6 +564,8 @@ class Guards:
                 passing = [(d, l) for d, l in edges if d in R]
                 if not (failing and passing):
                     continue
+                gspec = spec
+                spec = info.get("alt", spec)
                 if isinstance(spec, Cmp) and spec.pass_op and info.get("ops"):
                     okp = True
                     t = self.body.blocks[b]["t"]
@@ -548,13 +580,16 @@ class Guards:
                                 okp = False
                     if not okp:
                         guards[b] = ([], dict(bad_polarity=True, ops=info["ops"]))
+                        spec = gspec
                         continue
                 if isinstance(spec, BoolIs):
                     t = self.body.blocks[b]["t"]
                     okp = all(edge_truth(t, lab) is not None and (edge_truth(t, lab) != info["boolis_neg"]) == spec.value for d, lab in passing)
                     if not okp:
                         guards[b] = ([], dict(bad_polarity=True))
+                        spec = gspec
                         continue
+                spec = gspec
                 guards[b] = (passing, info)
                 for d, _ in passing:
                     removed.add((b, d))
